@@ -1,7 +1,7 @@
 -------------------------------- MODULE ObsTree --------------------------------
 (***************************************************************************)
 (* Validation of click histories recorded from the real dtml-tree against  *)
-(* the DTTree machine.  traces.json: [{n, parent, steps: [{op, x, rows,    *)
+(* the DTTree machine.  traces.json: [{n, parent, opt, steps: [{op, x, rows,    *)
 (* state, links}]}]; rows/state/links are node numbers as the harness      *)
 (* decoded them from the rendering and from the cookie.                    *)
 (***************************************************************************)
@@ -17,14 +17,14 @@ OInit == Init /\ k = 1 /\ bad = <<>>
 
 Check(st, e) ==      \* which observables of the recorded step disagree with the state e
     (IF st.rows # Rows(e) THEN {"rows"} ELSE {}) \cup
-    (IF ToSet(st.state) # e THEN {"cookie"} ELSE {}) \cup
+    (IF ~Opt.single /\ ToSet(st.state) # e THEN {"cookie"} ELSE {}) \cup
     (IF {<<l[1], l[2]>> : l \in ToSet(st.links)} # Links(e) THEN {"links"} ELSE {})
 
 Apply(st) == CASE st.op = "click" -> Click(st.x)
                [] st.op = "expand_all" -> ExpandAll
                [] st.op = "collapse_all" -> CollapseAll
                [] st.op = "init" -> UNCHANGED <<tid, exp, last>>
-               [] st.op = "reload" -> UNCHANGED <<tid, exp, last>>
+               [] st.op = "reload" -> ReloadEff /\ UNCHANGED <<tid, last>>
 
 ONext == /\ k <= Len(Steps) /\ bad = <<>>
          /\ Apply(Steps[k])
